@@ -748,7 +748,25 @@ pub(crate) fn read_filter_block(
 	if location.size() == 0 {
 		return Err(Error::FilterBlockEmpty);
 	}
-	let buf = read_bytes(src, location)?;
+	let buf = read_bytes(Arc::clone(&src), location)?;
+
+	// The filter block is written like every other block (payload, compression
+	// byte, masked CRC). Verify it: a damaged filter turns into false negatives
+	// - present keys reported absent - or into a panic while it is parsed.
+	let trailer = read_bytes(
+		src,
+		&BlockHandle::new(
+			location.offset() + location.size(),
+			BLOCK_COMPRESS_LEN + BLOCK_CKSUM_LEN,
+		),
+	)?;
+	let want = unmask(u32::decode_fixed(&trailer[BLOCK_COMPRESS_LEN..]).unwrap());
+	if !verify_table_block(&buf, trailer[0], want) {
+		return Err(Error::from(SSTableError::ChecksumVerificationFailed {
+			block_offset: location.offset() as u64,
+		}));
+	}
+
 	Ok(FilterBlockReader::new(buf, policy))
 }
 
